@@ -187,7 +187,7 @@ def list_targets(coredata: cdata.CoreData, builddata: build.Build, backend: back
             'target_sources': backend.get_introspection_data(idname, target),
             'extra_files': [os.path.normpath(os.path.join(src_dir, x.subdir, x.fname)) for x in target.extra_files],
             'subproject': target.subproject or None,
-            'dependencies': [d.name for d in getattr(target, 'external_deps', [])],
+            'dependencies': [d.name for d in getattr(target, 'external_deps', []) if d.is_named()],
             'depends': list(backend.get_target_deps({idname: target})),
         }
 
@@ -354,7 +354,7 @@ def list_deps(coredata: cdata.CoreData, builddata: build.Build, backend: backend
             'include_directories': [i for idirs in d.get_include_dirs() for i in idirs.abs_string_list(backend.source_dir, backend.build_dir)],
             'sources': [f for s in d.get_sources() for f in _src_to_str(s)],
             'extra_files': [f for s in d.get_extra_files() for f in _src_to_str(s)],
-            'dependencies': [e.name for e in d.ext_deps],
+            'dependencies': [e.name for e in d.ext_deps if e.is_named()],
             'depends': [lib.get_id() for lib in getattr(d, 'libraries', [])],
             'meson_variables': d.meson_variables,
         }
